@@ -985,50 +985,84 @@ def required_part(ctx):
     """`required` and nullability: kernels K20 (CodeBuilder.is_field_nullable) and K6R (on_dataclass) against the
     model; (T) validation of both translations on sampled field declarations"""
     ctx.theorems("props/C06_required.vo", ["K20_spec", "K20_wrappers_transparent", "C06_schema_requires_spec",
-                                           "C06_fnullable_is_K20", "C06_frequired_is_K6R"], kernels=["K20", "K6R"])
+                                           "C06_fnullable_is_K20", "C06_frequired_is_K6R", "C06_fnullable_typevar_is_K20",
+                                           "C06_frequired_typevar_is_K6R", "C06_unbound_typevar_nullable"], kernels=["K20", "K6R"])
     kr = ctx.kernel_report
     if not (kr.get("K20", {}).get("ok") and kr.get("K6R", {}).get("ok")):
         return
     from mashumaro.core.meta.code.builder import CodeBuilder
     from mashumaro.jsonschema import build_json_schema
     r = ctx.rng
-    # (ftype in (Any, NoneType, None), is_optional, union with a None member)
-    cores = [("int", (0, 0, 0)), ("Optional[int]", (0, 1, 1)), ("Any", (1, 0, 0)), ("None", (1, 0, 0)), ("Literal[1, None]", (0, 0, 0)),
-             ("Union[int, None, str]", (0, 0, 1)), ("Union[int, str]", (0, 0, 0)), ("List[Optional[int]]", (0, 0, 0)), ("str", (0, 0, 0))]
+    # observations (hand-written, per declaration): (ftype in (Any, NoneType, None), is_type_var_any(real_type), is_optional(ftype, params),
+    #   ftype is a union with a None member, real_type in (Any, NoneType, None), real_type is a union with a None member)
+    # real_type = the written type with the type variables of the specialisation substituted
+    def same(a, o, u):
+        return (a, 0, o, u, a, u)
+    cores = [("int", None, same(0, 0, 0)), ("Optional[int]", None, same(0, 1, 1)), ("Any", None, same(1, 0, 0)), ("None", None, same(1, 0, 0)),
+             ("Literal[1, None]", None, same(0, 0, 0)), ("Union[int, None, str]", None, same(0, 0, 1)), ("Union[int, str]", None, same(0, 0, 0)),
+             ("List[Optional[int]]", None, same(0, 0, 0)), ("str", None, same(0, 0, 0)),
+             # generic dataclass K(Generic[T]) specialised as K[arg] ("" = used without arguments): since /repo 4da7e9e the
+             # nullability of `x: T` is that of what T is bound to
+             ("T", "int", (0, 0, 0, 0, 0, 0)), ("T", "Optional[int]", (0, 0, 0, 0, 0, 1)), ("T", "None", (0, 0, 0, 0, 1, 0)),
+             ("T", "Any", (0, 0, 0, 0, 1, 0)), ("T", "Union[int, None, str]", (0, 0, 0, 0, 0, 1)), ("T", "", (0, 1, 0, 0, 0, 0)),
+             ("T", "List[Optional[int]]", (0, 0, 0, 0, 0, 0)), ("T", "Union[int, str]", (0, 0, 0, 0, 0, 0)),
+             ("Optional[T]", "int", (0, 0, 1, 1, 0, 1)), ("Optional[T]", "Optional[str]", (0, 0, 1, 1, 0, 1)),
+             ("Union[T, int]", "str", (0, 0, 0, 0, 0, 0)), ("Union[T, int]", "Optional[str]", (0, 0, 0, 0, 0, 1)),
+             ("Union[T, int]", "None", (0, 0, 1, 0, 0, 1)), ("List[T]", "Optional[int]", (0, 0, 0, 0, 0, 0))]
     stacks = [[], ["A"], ["F"], ["F", "A"], ["A", "A"], ["A", "F"]]
     cases, descr = [], []
-    for _ in range(ctx.budget(60, 300)):
-        core, (anyn, opt, unone) = r.choice(cores)
-        st = r.choice(stacks)
-        dflt = r.choice([None, None, "None", "1"])
-        omit = r.random() < 0.6
+    cb_ = lambda b: "true" if b else "false"
+    n_samples = ctx.budget(90, 400)
+    for i in range(n_samples):
+        # every declaration at least once (plain), then random declarations under random wrapper stacks
+        core, targ, obs = cores[i] if i < len(cores) else r.choice(cores)
+        st = [] if i < len(cores) else r.choice(stacks)
+        dflt = None if i < len(cores) else r.choice([None, None, "None", "1"])
+        omit = True if i < len(cores) else r.random() < 0.6
+        if targ is not None and dflt == "1":
+            dflt = None
         ts = core
         for w in reversed(st):
             ts = f"Annotated[{ts}, 'n']" if w == "A" else f"Final[{ts}]"
-        src = (G.PRELUDE2 + "@dataclass\nclass K(DataClassDictMixin):\n" + f"    x: {ts}" + (f" = {dflt}" if dflt is not None else "")
-               + ("\n    class Config(BaseConfig):\n        omit_none = True" if omit else "") + "\nROOT = K\n")
+        src = (G.PRELUDE2 + "T = TypeVar('T')\n@dataclass\nclass K(DataClassDictMixin" + (", Generic[T]" if targ is not None else "") + "):\n"
+               + f"    x: {ts}" + (f" = {dflt}" if dflt is not None else "")
+               + ("\n    class Config(BaseConfig):\n        omit_none = True" if omit else "")
+               + "\nROOT = K" + (f"[{targ}]" if targ else "") + "\n")
         try:
             m = load_module(src)
         except Exception:
             ctx.hist("skipped", "required-sample-unsupported")
             continue
         try:
-            cb = CodeBuilder(m.K)
+            import typing
+            cb = CodeBuilder(m.K, type_args=typing.get_args(m.ROOT))
             cb.reset()
             ft = cb.get_field_types(include_extras=True)["x"]
             en = bool(cb.is_field_nullable("x", ft))
-            er = "x" in build_json_schema(m.K).to_dict().get("required", [])
+            er = "x" in build_json_schema(m.ROOT).to_dict().get("required", [])
+            # the serializer's side of the same decision: under omit_none the key of a None value is dropped iff nullable
+            dropped = None
+            if omit:
+                from mashumaro.codecs.basic import BasicEncoder
+                try:
+                    dropped = "x" not in BasicEncoder(m.ROOT).encode(m.K(None))
+                except Exception as e:
+                    ctx.hist("skipped", "required-sample-encode:" + type(e).__name__)
         except Exception as e:
             ctx.hist("skipped", "required-sample:" + type(e).__name__)
             continue
         finally:
             unload_module(m)
-        term = f"(FCore (mkCore {'true' if anyn else 'false'} false {'true' if opt else 'false'} {'true' if unone else 'false'}))"
+        if dropped is not None and dropped != en:
+            ctx.fail(f"omit_none: the key of x: {ts} = None (specialisation {targ!r}) is {'dropped' if dropped else 'kept'} but is_field_nullable says {en}",
+                     {"entry": "required-sample", "source": src, "check": "omit-none-vs-nullable", "observed": {"dropped": dropped, "nullable": en},
+                      "expected": "dropped == nullable"}, {"kind": "omit-none-nullable-mismatch"})
+        ctx.hist("required_samples", "typevar-field" if targ is not None else "plain-field")
+        term = "(FCore (mkCore " + " ".join(cb_(x) for x in obs) + "))"
         for w in reversed(st):
             term = f"(FAnnotated {term})" if w == "A" else f"(FFinal (Some {term}))"
-        cb_ = lambda b: "true" if b else "false"
         cases.append(f"({term}, {cb_(dflt == 'None')}, {cb_(dflt is not None)}, {cb_(omit)}, {cb_(en)}, {cb_(er)})")
-        descr.append(f"x: {ts}{' = ' + dflt if dflt else ''} omit_none={omit} -> nullable {en}, required {er}")
+        descr.append(f"x: {ts}{' = ' + dflt if dflt else ''} in K{'[' + targ + ']' if targ else ''} omit_none={omit} -> nullable {en}, required {er}")
     okf = ("fun c => match c with (t, d, h, o, en, er) => Bool.eqb (is_field_nullable t d) en && "
            "match schema_requires (KBool h) (KBool o) (KBool (is_field_nullable t d)) with Ok (KBool b) => Bool.eqb b er | _ => false end end")
     bad, log = vlib.coq_bad_idx("c06_k20", "PyK_nullable", "From VerifGen Require Import K20 K6R.", "", cases, okf,
